@@ -1,0 +1,21 @@
+//go:build verif
+
+// Contracts for the collection helpers, read by /verif/govc.
+// This file contains comments only; it is compiled only with -tags verif.
+
+package collectionutils
+
+// unlinking a node of the doubly linked list: its neighbours are joined, the list's first / last pointers
+// move exactly when the node was the first / last one, and the node keeps its own next pointer (the lock
+// manager keeps iterating from a node it has just removed)
+//@ func (*collectionutils.LinkedListNode[T]).Remove
+//@   requires n != nil && n.list != nil && (n.previousNode != nil ==> n.previousNode != n) && (n.nextNode != nil ==> n.nextNode != n)
+//@   ensures old(n.list.lastNode) == n ==> n.list.lastNode == old(n.previousNode)
+//@   ensures old(n.list.lastNode) != n ==> n.list.lastNode == old(n.list.lastNode)
+//@   ensures old(n.list.firstNode) == n ==> n.list.firstNode == old(n.nextNode)
+//@   ensures old(n.list.firstNode) != n ==> n.list.firstNode == old(n.list.firstNode)
+//@   ensures old(n.previousNode) != nil ==> old(n.previousNode).nextNode == old(n.nextNode)
+//@   ensures old(n.nextNode) != nil ==> old(n.nextNode).previousNode == old(n.previousNode)
+//@   ensures n.nextNode == old(n.nextNode) && n.list == old(n.list)
+//@   nopanic
+//@   property C15
